@@ -10,6 +10,8 @@ CONSTANTS
   RetainPats <- cRetainP
   ItemSeqs <- cItems2
   Hints = {0, 20}
+  RawArgs <- cRawNone
+  U16Args <- cU16None
   FailMode = 0
   PanicMode = 1
   Seeds <- cSeedsAll
